@@ -133,7 +133,7 @@ def parse(path):
                 buf.append(open(inc).read())
             elif d.startswith('extract '):
                 flush_text()
-                m = re.match(r'extract\s+(fn|struct|enum|const|type|closure)\s+(\w+)(.*)$', d)
+                m = re.match(r'extract\s+(fn|struct|enum|const|type|closure|arm)\s+(\w+)(.*)$', d)
                 if not m:
                     raise ScanError('vspec line %d: bad extract' % lineno)
                 rest = m.group(3)
@@ -143,6 +143,9 @@ def parse(path):
                 cur = Extract(m.group(1), m.group(2), impl.group(1) if impl else None, f.group(1) if f else unit.source,
                               inf.group(1) if inf else None)
                 cur.line = lineno
+                pat = re.search(r'pat=`([^`]*)`', rest)
+                cur.pat = pat.group(1) if pat else None
+                cur.wrap_ok = bool(re.search(r'wrap=ok', rest))
             elif d.startswith('#') or not d:
                 pass
             else:
@@ -254,6 +257,20 @@ def build_item(repo, unit, ex, canary, log):
         orig = src[a:b]
         text = rscan.strip_comments('fn %s(%s) -> _ %s' % (ex.name, params, body))
         log.append(dict(rule='R3.closure', where=where, before='let %s = |%s| {..};' % (ex.name, ' '.join(params.split())), after='fn %s(..) -> _ {..}' % ex.name))
+    elif ex.kind == 'arm':
+        # R3 (arm lifting): the arm `PAT => { BODY }` of a match inside fn `in_fn` becomes `fn NAME() -> _ { BODY }`;
+        # the unit's rules then make the variables the arm uses from its surroundings parameters and write out the
+        # return type (`?` in the arm leaves the surrounding function)
+        outer = rscan.locate(src, dict(kind='fn', name=ex.in_fn, impl=ex.impl))
+        a, b, body = rscan.find_match_arm(src, outer, getattr(ex, 'pat', None) or '')
+        item = rscan.Item('arm', ex.name, a, b, None, None, a)
+        orig = src[a:b]
+        if getattr(ex, 'wrap_ok', False):
+            # the arm is a unit-valued block of a function that returns a Result: falling out of it means "no error"
+            text = rscan.strip_comments('fn %s() -> _ { %s; Ok(()) }' % (ex.name, body))
+        else:
+            text = rscan.strip_comments('fn %s() -> _ %s' % (ex.name, body))
+        log.append(dict(rule='R3.arm', where=where, before='%s => {..}' % ex.pat, after='fn %s() -> _ {..%s}' % (ex.name, '; Ok(())' if getattr(ex, 'wrap_ok', False) else '')))
     else:
         item = rscan.locate(src, dict(kind=ex.kind, name=ex.name, impl=ex.impl, in_fn=ex.in_fn))
         orig = src[item.start:item.end]
@@ -270,7 +287,7 @@ def build_item(repo, unit, ex, canary, log):
     inserts = []   # (offset, order, id, text)
     seq = 0
     lost = []
-    if ex.kind in ('fn', 'closure'):
+    if ex.kind in ('fn', 'closure', 'arm'):
         shape = rscan.FnShape(rewritten)
         toks = shape.toks
         if ex.ret:
